@@ -11,7 +11,7 @@ from .. import core, corpus, tok
 
 def real_filter(tokens):
     from html5lib.filters.alphabeticalattributes import Filter
-    return list(Filter(copy.deepcopy(tokens)))
+    return tok.consume(Filter(copy.deepcopy(tokens)))
 
 
 def mc_cfg(maxattrs, maxtags, big, export):
